@@ -5,6 +5,6 @@ CONSTANTS
   Alphabet <- AlphaJump
   MaxLen = 4
   Datas <- DatasSmall
-INVARIANTS TypeOK PcOnInstr JumpLanding
+INVARIANTS TypeOK PcOnInstr JumpLanding DestDefsAgree
 PROPERTY MemMonotone
 CHECK_DEADLOCK FALSE
